@@ -103,7 +103,7 @@ def g_code(rng):
     m = _word(rng, ml, ALNUM + '  -').strip(' ')
     m = m + 'x' * (ml - len(m))
     return [g_code_value(rng), rng.choice(['DCM', 'SCT', '99X', 'UCUM']), m,
-            rng.choice([None, None, '2020', '1.0'])]
+            rng.choice([None, None, '2020', '1.0', '20240101']), rng.choice(['code', 'cc'])]
 
 
 def g_uid(rng):
@@ -390,7 +390,72 @@ def _hd():
 
 
 def _cc(sr, c):
+    """The concept as the caller passes it: a pydicom Code or a CodedConcept."""
+    if len(c) > 4 and c[4] == 'code':
+        from pydicom.sr.coding import Code
+        return Code(c[0], c[1], c[2], c[3])
     return sr.CodedConcept(c[0], c[1], c[2], c[3])
+
+
+def _eq_code(got, c, what):
+    """four accessors and == / != against the constructor argument"""
+    sr, vtm = _hd()
+    from pydicom.sr.coding import Code
+    want = list(c[:4])
+    if obs_code(got) != want:
+        return f'{what}: accessors {obs_code(got)} != constructed {want}'
+    for arg in (Code(*c[:4]), sr.CodedConcept(*c[:4])):
+        if not (got == arg) or (got != arg) or not (arg == got if isinstance(arg, sr.CodedConcept) else True):
+            return f'{what}: {obs_code(got)} compares unequal to the {type(arg).__name__} {want} it was constructed with'
+    return True
+
+
+def eq_check(it, node, where):
+    r = _eq_code(it.name, node['name'], f'{where} name of {node["t"]}')
+    if r is not True:
+        return r
+    v = node['val']
+    if node['t'] == 'CODE':
+        r = _eq_code(it.value, v['code'], f'{where} CODE value')
+    elif node['t'] == 'NUM':
+        r = _eq_code(it.unit, v['unit'], f'{where} NUM unit')
+        if r is True and v['qual'] is not None:
+            r = _eq_code(it.qualifier, v['qual'], f'{where} NUM qualifier')
+    if r is not True:
+        return r
+    kids = list(it.ContentSequence) if 'ContentSequence' in it else []
+    if len(kids) != len(node['kids']):
+        return f'{where}: {len(kids)} children, constructed with {len(node["kids"])}'
+    for k, kn in zip(kids, node['kids']):
+        r = eq_check(k, kn, where)
+        if r is not True:
+            return r
+    return True
+
+
+def _eq_paths(it, node):
+    sr, vtm = _hd()
+    cls = type(it)
+    r = eq_check(it, node, 'after construction:')
+    if r is not True:
+        return r
+    for where, mk in (('after from_dataset(plain copy):', lambda: plain(it)), ('after bytes + from_dataset:', lambda: via_bytes(it))):
+        try:
+            back = cls.from_dataset(mk())
+        except Exception:
+            continue          # refusals are reported by the other outputs
+        r = eq_check(back, node, where)
+        if r is not True:
+            return r
+        if node['rel'] is not None:
+            try:
+                seq = vtm.ContentSequence.from_sequence([mk()])
+            except Exception:
+                continue
+            r = eq_check(seq[0], node, where.replace('from_dataset', 'from_sequence'))
+            if r is not True:
+                return r
+    return True
 
 
 def _dt(l):
@@ -752,14 +817,19 @@ def run_impl(c):
         b = via_bytes(it)
         out += [tree_canon(ds_tree(b), mask_ds=True), catch(_parse_seq, [plain(b)]),
                 catch(_parse_own, cls, plain(b))]
+        eq = catch(_eq_paths, it, c['tree'])
+        out.append(eq if eq is True else (f'raised {eq}' if isinstance(eq, Err) else eq))
         return out
     if k == 'code':
         def f():
-            cc = _cc(sr, c['code'])
+            cc = _cc(sr, c['code'][:4])
             kw = [x for x in ('CodeValue', 'LongCodeValue', 'URNCodeValue') if x in cc]
             back = catch(lambda: obs_code(sr.CodedConcept.from_dataset(plain(cc))))
             assert obs_code(cc) == back, (obs_code(cc), back)
-            return [kw[0] if len(kw) == 1 else repr(kw), tree_canon(ds_tree(plain(cc))), back]
+            from pydicom.sr.coding import Code
+            fc = sr.CodedConcept.from_code(Code(*c['code'][:4]))
+            assert sr.CodedConcept.from_code(fc) is fc
+            return [kw[0] if len(kw) == 1 else repr(kw), tree_canon(ds_tree(plain(cc))), back, obs_code(fc)]
         return catch(f)
     if k == 'code_from':
         return catch(lambda: obs_code(sr.CodedConcept.from_dataset(_code_ds(c))))
@@ -897,7 +967,7 @@ def coq_term(c):
 # --------------------------------------------------------------------------
 def exp_value(t, v):
     if t == 'CODE':
-        return list(v['code'])
+        return list(v['code'][:4])
     if t == 'COMPOSITE':
         return [v['cls'], v['inst']]
     if t == 'CONTAINER':
@@ -908,8 +978,8 @@ def exp_value(t, v):
         nl = lambda x: None if x is None else ([x] if isinstance(x, int) else list(x))
         return [v['cls'], v['inst'], nl(v['frames']), nl(v['segs'])]
     if t == 'NUM':
-        return [F(v['num']) if v['isf'] else F(int(v['num'])), bool(v['isf']), list(v['unit']),
-                None if v['qual'] is None else list(v['qual'])]
+        return [F(v['num']) if v['isf'] else F(int(v['num'])), bool(v['isf']), list(v['unit'][:4]),
+                None if v['qual'] is None else list(v['qual'][:4])]
     if t in ('PNAME', 'TEXT', 'UIDREF'):
         return v['s']
     if t == 'SCOORD':
@@ -925,7 +995,7 @@ def exp_value(t, v):
 
 
 def exp_item(n):
-    return [CLASS[n['t']], list(n['name']), n['rel'], exp_value(n['t'], n['val']), [exp_item(k) for k in n['kids']]]
+    return [CLASS[n['t']], list(n['name'][:4]), n['rel'], exp_value(n['t'], n['val']), [exp_item(k) for k in n['kids']]]
 
 
 def _tree_invalid(n, top=True):
@@ -987,7 +1057,7 @@ def oracle(c, out):
             return None if isinstance(out, Err) else f'inadmissible tree accepted ({bad})'
         if isinstance(out, Err):
             return f'admissible tree refused by the constructors: {out}'
-        built, ds_plain, own, seq, ds_bytes, seq_b, own_b = out
+        built, ds_plain, own, seq, ds_bytes, seq_b, own_b, eq = out
         exp = exp_item(c['tree'])
         if isinstance(built, Err):
             return f'accessors of the constructed item raised {built}'
@@ -1013,9 +1083,11 @@ def oracle(c, out):
         d = _first_diff(ds_bytes, ds_plain, 'dataset after bytes')
         if d:
             return d
+        if eq is not True:
+            return f'coded concept equality: {eq}'
         return None
     if k == 'code':
-        v, s, m, ver = c['code']
+        v, s, m, ver = c['code'][:4]
         if len(m) > 64:
             return None if isinstance(out, Err) else 'meaning of more than 64 characters accepted'
         if isinstance(out, Err):
@@ -1025,6 +1097,8 @@ def oracle(c, out):
             return f'code value {v!r} stored in {out[0]}, expected {want}'
         if out[2] != [v, s, m, ver]:
             return f'code read back as {out[2]}'
+        if out[3] != [v, s, m, ver]:
+            return f'CodedConcept.from_code(Code{(v, s, m, ver)}) reports {out[3]}'
         return None
     if k == 'code_from':
         ok = len(c['kws']) == 1 and c['meaning'] and c['scheme']
